@@ -383,6 +383,7 @@ pub struct Snapshot {
 	pub file: Vec<u8>,
 	pub model: Model,
 	pub roles: HashMap<u64, &'static str>,
+	pub leaves: HashMap<u64, Vec<u64>>,
 	pub nodes: u64,
 	pub height: u32,
 	pub total: u64,
@@ -406,8 +407,12 @@ pub struct Exec {
 	/// nodes after - nodes before, for the last ledger
 	nodes_delta: i64,
 	last_mut: &'static str,
-	/// cached nodes and file decode differently since: (node kind, operation, nodes_delta)
-	div_since: Option<(&'static str, &'static str, i64)>,
+	/// cached nodes and file decode differently since: (node kind, operation, nodes_delta, leaf_borrow)
+	div_since: Option<(&'static str, &'static str, i64, bool)>,
+	/// leaf page -> key hashes at the previous ledger
+	prev_leaves: HashMap<u64, Vec<u64>>,
+	/// the last mutation moved a key between two leaves that both still exist (a leaf-level borrow)
+	leaf_borrow: bool,
 }
 
 pub fn hexs(b: &[u8]) -> String {
@@ -459,15 +464,18 @@ impl Exec {
 			nodes_delta: 0,
 			last_mut: "",
 			div_since: None,
+			prev_leaves: HashMap::new(),
+			leaf_borrow: false,
 		}
 	}
 
 	/// Structural facts about a divergence between cached nodes and file, if one is known.
 	fn div_facts(&self, facts: &mut Value) {
-		if let Some((kind, after, nd)) = self.div_since {
+		if let Some((kind, after, nd, lb)) = self.div_since {
 			facts["mem_disk_differ_in"] = json!(kind);
 			facts["after"] = json!(after);
 			facts["nodes_delta"] = json!(nd);
+			facts["leaf_borrow"] = json!(lb);
 		}
 	}
 
@@ -675,15 +683,31 @@ impl Exec {
 		rep.stats.ledgers += 1;
 		let nodes = mem.nodes.len() as u64;
 		self.nodes_delta = nodes as i64 - self.prev_nodes as i64;
+		// did a key move between two leaves that both existed before and still exist?
+		let leaves: HashMap<u64, Vec<u64>> =
+			mem.nodes.iter().filter(|n| n.is_leaf).map(|n| (n.page, n.key_hashes.clone())).collect();
+		self.leaf_borrow = false;
+		'outer: for (p, now) in &leaves {
+			if let Some(before) = self.prev_leaves.get(p) {
+				for h in now.iter().filter(|h| !before.contains(h)) {
+					if self.prev_leaves.iter().any(|(q, ks)| q != p && ks.contains(h) && leaves.get(q).map(|c| !c.contains(h)).unwrap_or(false)) {
+						self.leaf_borrow = true;
+						break 'outer;
+					}
+				}
+			}
+		}
+		self.prev_leaves = leaves;
 		let div = Self::mem_disk_divergence(&mem, &disk);
 		match (div, self.div_since) {
-			(Some(d), None) => self.div_since = Some((d, self.last_mut, self.nodes_delta)),
+			(Some(d), None) => self.div_since = Some((d, self.last_mut, self.nodes_delta, self.leaf_borrow)),
 			(None, _) => self.div_since = None,
 			_ => {}
 		}
 		if let Some(mut f) = judge_ledger(&disk, step, "disk", &self.prev_roles) {
 			f.facts["nodes_delta"] = json!(self.nodes_delta);
 			f.facts["after"] = json!(self.last_mut);
+			f.facts["leaf_borrow"] = json!(self.leaf_borrow);
 			self.div_facts(&mut f.facts);
 			return Some(f);
 		}
@@ -1169,11 +1193,17 @@ impl Exec {
 	}
 
 	fn snapshot(&self) -> Option<Snapshot> {
+		// restoring a file image is a reopen: only equivalent to running the preload when the
+		// cached nodes and the file agree
+		if self.div_since.is_some() {
+			return None;
+		}
 		let file = std::fs::read(&self.path).ok()?;
 		Some(Snapshot {
 			file,
 			model: self.model.clone(),
 			roles: self.prev_roles.clone(),
+			leaves: self.prev_leaves.clone(),
 			nodes: self.prev_nodes,
 			height: self.prev_height,
 			total: self.prev_total,
@@ -1195,6 +1225,7 @@ impl Exec {
 				std::fs::write(&self.path, &s.file).expect("write preload image");
 				self.model = s.model.clone();
 				self.prev_roles = s.roles.clone();
+				self.prev_leaves = s.leaves.clone();
 				self.prev_nodes = s.nodes;
 				self.prev_height = s.height;
 				self.prev_total = s.total;
@@ -1263,7 +1294,9 @@ impl Exec {
 				return;
 			}
 		}
-		if let Some(shape) = &case.shape {
+		// (a state the spec calls "corrupt" -- reopened over a stale separator chain -- has no modelled layout)
+		let spec_ok = case.spec.as_ref().map(|sp| sp["st"] == "ok").unwrap_or(true);
+		if let (Some(shape), true) = (&case.shape, spec_ok) {
 			// the spec models the nodes as the running instance holds them (full keys)
 			let a = self.tree.as_ref().unwrap().verif_page_accounting(false);
 			rep.stats.shapes_compared += 1;
@@ -1466,6 +1499,17 @@ pub fn dump(a: &PageAccounting) {
 	eprintln!("  problems={:?}", a.problems);
 }
 
+/// What must stay the same while a failing case is minimised: kind + structural facts.
+fn shrink_signature(f: &Finding) -> String {
+	let mut facts = f.facts.clone();
+	if let Some(o) = facts.as_object_mut() {
+		for k in ["nodes_delta", "view", "got_len", "want_len", "key_class", "got_some", "want_some"] {
+			o.remove(k);
+		}
+	}
+	format!("{}|{}", f.kind, facts)
+}
+
 /// Delta-debugging: smallest sub-sequence of pre ++ ops that still fails with the same kind.
 pub fn shrink(case: &Case, dir: &Path) -> Case {
 	let mut flat = case.clone();
@@ -1480,15 +1524,17 @@ pub fn shrink(case: &Case, dir: &Path) -> Case {
 	let mut cache = PreCache::new();
 	let rep = run_case(&flat, dir, false, &mut cache);
 	let Some(v) = rep.violation else { return case.clone() };
-	let kind = v.kind.clone();
+	let sig = shrink_signature(&v);
 	let mut cur = flat;
 	cur.ops.truncate(v.step + 1);
-	let mut fails = |c: &Case| run_case(c, dir, false, &mut cache).violation.map(|f| f.kind == kind).unwrap_or(false);
+	let mut fails = |c: &Case| run_case(c, dir, false, &mut cache).violation.map(|f| shrink_signature(&f) == sig).unwrap_or(false);
 	let mut chunk = (cur.ops.len() / 2).max(1);
+	let t0 = std::time::Instant::now();
+	let budget = std::time::Duration::from_secs(25);
 	loop {
 		let mut i = 0;
 		let mut progressed = false;
-		while i < cur.ops.len() {
+		while i < cur.ops.len() && t0.elapsed() < budget {
 			let mut t = cur.clone();
 			let end = (i + chunk).min(t.ops.len());
 			t.ops.drain(i..end);
@@ -1499,7 +1545,7 @@ pub fn shrink(case: &Case, dir: &Path) -> Case {
 				i += chunk;
 			}
 		}
-		if chunk == 1 && !progressed {
+		if (chunk == 1 && !progressed) || t0.elapsed() >= budget {
 			break;
 		}
 		if !progressed {
